@@ -84,7 +84,7 @@
 
             void append(astnode node)
             {
-                children.push_back(node);
+                children.push_back(std::move(node));
             }
             void append_children(const astnode& other)
             { 
@@ -155,56 +155,56 @@
 /*** BEGIN - Change the grammar rules below ***/
 /*** BEGIN - Change the grammar rules below ***/
 start: END_OF_FILE                                      { result = ::sqf::parser::config::bison::astnode{}; }
-     | topstatements                                    { result = ::sqf::parser::config::bison::astnode{}; result.append($1); }
+     | topstatements                                    { result = ::sqf::parser::config::bison::astnode{}; result.append(std::move($1)); }
      | separators                                       { result = ::sqf::parser::config::bison::astnode{}; }
-     | separators topstatements                         { result = ::sqf::parser::config::bison::astnode{}; result.append($2); }
+     | separators topstatements                         { result = ::sqf::parser::config::bison::astnode{}; result.append(std::move($2)); }
      ;
 separators: ";"
           | separators ";"
           ;
-topstatements: topstatement                             { $$ = ::sqf::parser::config::bison::astnode{ astkind::STATEMENTS }; $$.append($1); }
-             | topstatements separators                 { $$ = $1; }
-             | topstatements separators topstatement    { $$ = $1; $$.append($3); }
+topstatements: topstatement                             { $$ = ::sqf::parser::config::bison::astnode{ astkind::STATEMENTS }; $$.append(std::move($1)); }
+             | topstatements separators                 { $$ = std::move($1); }
+             | topstatements separators topstatement    { $$ = std::move($1); $$.append(std::move($3)); }
              ;
-topstatement: classdef                                  { $$ = $1; }
-            | deleteclass                               { $$ = $1; }
+topstatement: classdef                                  { $$ = std::move($1); }
+            | deleteclass                               { $$ = std::move($1); }
             ;
-statements: statement                                   { $$ = ::sqf::parser::config::bison::astnode{ astkind::STATEMENTS }; $$.append($1); }
-          | statements separators                       { $$ = $1; }
-          | statements separators statement             { $$ = $1; $$.append($3); }
+statements: statement                                   { $$ = ::sqf::parser::config::bison::astnode{ astkind::STATEMENTS }; $$.append(std::move($1)); }
+          | statements separators                       { $$ = std::move($1); }
+          | statements separators statement             { $$ = std::move($1); $$.append(std::move($3)); }
           ;
-statement: classdef                                     { $$ = $1; }
-         | field                                        { $$ = $1; }
-         | deleteclass                                  { $$ = $1; }
+statement: classdef                                     { $$ = std::move($1); }
+         | field                                        { $$ = std::move($1); }
+         | deleteclass                                  { $$ = std::move($1); }
          ;
 
-classdef: "class" ident                                 { $$ = ::sqf::parser::config::bison::astnode{ astkind::CLASS_DEF, $1 }; $$.append($2); }
-        | "class" ident ":" ident                       { $$ = ::sqf::parser::config::bison::astnode{ astkind::CLASS_DEF_EXT, $1 }; $$.append($2); $$.append($4); }
-        | "class" ident classbody                       { $$ = ::sqf::parser::config::bison::astnode{ astkind::CLASS, $1 }; $$.append($2); $$.append($3); }
-        | "class" ident ":" ident classbody             { $$ = ::sqf::parser::config::bison::astnode{ astkind::CLASS_EXT, $1 }; $$.append($2); $$.append($4); $$.append($5); }
+classdef: "class" ident                                 { $$ = ::sqf::parser::config::bison::astnode{ astkind::CLASS_DEF, $1 }; $$.append(std::move($2)); }
+        | "class" ident ":" ident                       { $$ = ::sqf::parser::config::bison::astnode{ astkind::CLASS_DEF_EXT, $1 }; $$.append(std::move($2)); $$.append(std::move($4)); }
+        | "class" ident classbody                       { $$ = ::sqf::parser::config::bison::astnode{ astkind::CLASS, $1 }; $$.append(std::move($2)); $$.append(std::move($3)); }
+        | "class" ident ":" ident classbody             { $$ = ::sqf::parser::config::bison::astnode{ astkind::CLASS_EXT, $1 }; $$.append(std::move($2)); $$.append(std::move($4)); $$.append(std::move($5)); }
         ;
-deleteclass: "delete" ident                             { $$ = ::sqf::parser::config::bison::astnode{ astkind::DELETE_CLASS, $1 }; $$.append($2); }
+deleteclass: "delete" ident                             { $$ = ::sqf::parser::config::bison::astnode{ astkind::DELETE_CLASS, $1 }; $$.append(std::move($2)); }
            ;
 
 classbody: "{" "}"                                      { $$ = ::sqf::parser::config::bison::astnode{ astkind::STATEMENTS }; }
-         | "{" statements "}"                           { $$ = $2; }
+         | "{" statements "}"                           { $$ = std::move($2); }
          ;
 
 field: ident "=" anyvalue
      {
          $$ = ::sqf::parser::config::bison::astnode{ astkind::FIELD, $2 };
-         $$.append($1);
+         $$.append(std::move($1));
          if ($3.children.size() == 1 && $3.children[0].kind != astkind::ANY)
          {
             $$.append($3.children[0]);
          }
          else
          {
-            $$.append($3);
+            $$.append(std::move($3));
          }
      }
-     | ident "[" "]" "=" array                          { $$ = ::sqf::parser::config::bison::astnode{ astkind::FIELD_ARRAY, $4 }; $$.append($1); $$.append($5); }
-     | ident "[" "]" "+=" array                         { $$ = ::sqf::parser::config::bison::astnode{ astkind::FIELD_ARRAY_APPEND, $4 }; $$.append($1); $$.append($5); }
+     | ident "[" "]" "=" array                          { $$ = ::sqf::parser::config::bison::astnode{ astkind::FIELD_ARRAY, $4 }; $$.append(std::move($1)); $$.append(std::move($5)); }
+     | ident "[" "]" "+=" array                         { $$ = ::sqf::parser::config::bison::astnode{ astkind::FIELD_ARRAY_APPEND, $4 }; $$.append(std::move($1)); $$.append(std::move($5)); }
      ;
 
 ident: IDENT                                            { $$ = ::sqf::parser::config::bison::astnode{ astkind::IDENT, $1 }; }
@@ -215,9 +215,9 @@ number: NUMBER                                          { $$ = ::sqf::parser::co
       | HEXNUMBER                                       { $$ = ::sqf::parser::config::bison::astnode{ astkind::NUMBER_HEXADECIMAL, $1 }; }
       ;
 array: "{" "}"                                          { $$ = ::sqf::parser::config::bison::astnode{ astkind::ARRAY }; }
-     | "{" arrayvaluelist "}"                           { $$ = $2; }
+     | "{" arrayvaluelist "}"                           { $$ = std::move($2); }
      ;
-arrayvalue: array                                       { $$ = $1; }
+arrayvalue: array                                       { $$ = std::move($1); }
           | anyarray
           {
               if ($1.children.size() == 1 && $1.children[0].kind != astkind::ANY)
@@ -226,36 +226,36 @@ arrayvalue: array                                       { $$ = $1; }
               }
               else
               {
-                 $$ = $1;
+                 $$ = std::move($1);
               }
           }
           ;
-arrayvaluelist: arrayvalue                              { $$ = ::sqf::parser::config::bison::astnode{ astkind::ARRAY }; $$.append($1); }
-              | arrayvaluelist "," arrayvalue           { $$ = $1; $$.append($3); }
+arrayvaluelist: arrayvalue                              { $$ = ::sqf::parser::config::bison::astnode{ astkind::ARRAY }; $$.append(std::move($1)); }
+              | arrayvaluelist "," arrayvalue           { $$ = std::move($1); $$.append(std::move($3)); }
               ;
-anyval: anyp                                            { $$ = $1; }
+anyval: anyp                                            { $$ = std::move($1); }
       | "{"                                             { $$ = ::sqf::parser::config::bison::astnode{ astkind::ANY, $1 }; }
       | "}"                                             { $$ = ::sqf::parser::config::bison::astnode{ astkind::ANY, $1 }; }
       | ","                                             { $$ = ::sqf::parser::config::bison::astnode{ astkind::ANY, $1 }; }
       ;
-anyarr: anyp                                            { $$ = $1; }
+anyarr: anyp                                            { $$ = std::move($1); }
       ;
 anyp: "class"                                           { $$ = ::sqf::parser::config::bison::astnode{ astkind::ANY, $1 }; }
     | "delete"                                          { $$ = ::sqf::parser::config::bison::astnode{ astkind::ANY, $1 }; }
-    | number                                            { $$ = $1; }
-    | string                                            { $$ = $1; }
-    | ident                                             { $$ = $1; }
+    | number                                            { $$ = std::move($1); }
+    | string                                            { $$ = std::move($1); }
+    | ident                                             { $$ = std::move($1); }
     | "["                                               { $$ = ::sqf::parser::config::bison::astnode{ astkind::ANY, $1 }; }
     | "]"                                               { $$ = ::sqf::parser::config::bison::astnode{ astkind::ANY, $1 }; }
     | ":"                                               { $$ = ::sqf::parser::config::bison::astnode{ astkind::ANY, $1 }; }
     | "="                                               { $$ = ::sqf::parser::config::bison::astnode{ astkind::ANY, $1 }; }
     | ANY                                               { $$ = ::sqf::parser::config::bison::astnode{ astkind::ANY, $1 }; }
     ;
-anyarray: anyarr                                        { $$ = ::sqf::parser::config::bison::astnode{ astkind::ANYSTRING }; $$.append($1); }
-        | anyarray anyarr                               { $$ = $1; $$.append($2); }
+anyarray: anyarr                                        { $$ = ::sqf::parser::config::bison::astnode{ astkind::ANYSTRING }; $$.append(std::move($1)); }
+        | anyarray anyarr                               { $$ = std::move($1); $$.append(std::move($2)); }
         ;
-anyvalue: anyval                                        { $$ = ::sqf::parser::config::bison::astnode{ astkind::ANYSTRING }; $$.append($1); }
-        | anyvalue anyval                               { $$ = $1; $$.append($2); }
+anyvalue: anyval                                        { $$ = ::sqf::parser::config::bison::astnode{ astkind::ANYSTRING }; $$.append(std::move($1)); }
+        | anyvalue anyval                               { $$ = std::move($1); $$.append(std::move($2)); }
         ;
 
 
